@@ -425,7 +425,8 @@ class C14(CheckBase):
         name = ch.pick(["self.pt", "lib.pt", "page.pt", "main.pt",
                         "x/page.pt", "doc.pt", "doc.pt"])
         shared = [{"kind": "loader"}] if via_loader else \
-            [{"kind": ch.pick(["file", "cachedfile"]), "name": name}]
+            [{"kind": ch.pick(["file", "cachedfile", "cachedfile"]),
+              "name": name}]
         tasks = []
         ntasks = 3 if ch.coin(0.6) else 2
         for t in range(ntasks):
@@ -441,6 +442,14 @@ class C14(CheckBase):
             tasks.append(ops)
         d = ch.pick([2, 3, 3, 4, 5])
         cached = shared[0]["kind"] == "cachedfile"
+        if cached and ch.coin(0.8):
+            # two instances of one file that share the module cache (the
+            # lock of a template does not serialise *them*): the threads
+            # are spread over the two
+            shared.append(dict(shared[0]))
+            for ti_, ops_ in enumerate(tasks):
+                for op_ in ops_:
+                    op_[1] = ti_ % 2
         if via_loader:
             shared[0]["obs_name"] = name
         return {"shared": shared, "tasks": tasks, "coarse": False,
